@@ -15,6 +15,8 @@ from gen.common import weighted
 from oracles import refvm as V
 from vlib.core import HarnessError, SubCheck, Violation
 
+from gen import subproc
+
 PROPERTY = "C05"
 ASSUMPTIONS = [
     "oracles/refvm.py (transliteration of Core's pre-taproot interpreter, calibrated on the 1405 Core vectors) with oracles/refsighash.py "
@@ -182,10 +184,13 @@ def o_sign(case):
         labels.append("script-withheld")
 
     before = S.snapshot(tx)
+    forms = case.get("forms", 0)
+    if forms:
+        labels.append("iterable-forms")
     if mask is None:
-        S.pycoin_sign(B, tx, mech, supply, req_ht, None, scripts, _uncompressed(B))
+        S.pycoin_sign(B, tx, mech, supply, req_ht, None, scripts, _uncompressed(B), forms=forms)
     else:
-        S.pycoin_sign(B, tx, mech, supply, req_ht, requested, scripts, _uncompressed(B))
+        S.pycoin_sign(B, tx, mech, supply, req_ht, requested, scripts, _uncompressed(B), forms=forms)
     after = S.snapshot(tx)
 
     may_change = {i for i in requested if i not in pre}
@@ -272,6 +277,7 @@ def s_sign():
         "pre": weighted((1, st.just([])), (1, pre)),
         "withhold": withhold,
         "no_script": no_script,
+        "forms": weighted((1, st.just(0)), (1, st.integers(0, 63))),
     })
 
 
@@ -516,4 +522,7 @@ SUBCHECKS = [
     SubCheck("multisig_grid", o_grid, cases=cases_grid, exhaustive=False, max_shards=16, guard_s=(240, 3000),
              rule="(m, n) grid, one key per pass in a seed-derived order, m+1 passes: P2WSH n <= 20 and P2SH n <= 15 (thorough: every 1 <= m <= n; "
                   "quick: 16 cells incl. n = 15, 16, 17, 20); pycoin verdict after every pass, refvm at m-1 and m"),
+    SubCheck("sign_transactions_pure_python", subproc.pure_python_variant("checks.c05_signing", "o_sign"), strategy=s_sign,
+             budget=(16, 1200), nontrivial=nt_sign,
+             rule="the sign_transactions cases in a child interpreter started with PYCOIN_NATIVE=none (pure-Python point arithmetic, asserted)"),
 ]
